@@ -252,4 +252,46 @@ theorem itext_addChars (c : Creator) (t : Tracker) (chars : Str) :
           · simp only [hk, Bool.false_eq_true, if_false]
             rw [fresh]
 
+/-! ### one word of the stream -/
+
+/-- `w` is a word of two basic characters: no command, preamble, tab offset, special or extended code -/
+structure BasicWord (w : String) (a b : String) : Prop where
+  notCommand : isCommand w = false
+  notPac : isPac w = false
+  notSpecial : special w = none
+  notExtended : extended w = none
+  notTab : tabOffset w = none
+  notCue : isCueStarting w = false
+  notBs : (w == "94a1") = false
+  first : character (w.take 2).toString = some a
+  second : character (w.drop 2).toString = some b
+
+theorem buf_setBuf (r : Reader) (c : Creator) : (r.setBuf c).buf = c := by
+  cases h : r.active <;> simp [Reader.setBuf, Reader.buf, h]
+
+/-- **a word of basic characters** puts exactly its two characters at the end of the active buffer's text and touches
+    neither the stash nor the mode — in every state of the reader (doubling memory, tracker, any buffer content) -/
+theorem word_basic (r : Reader) (w : String) (nxt : Option String) (a b : String) (h : BasicWord w a b) :
+    itext (word r w nxt).buf.coll = itext r.buf.coll ++ (a.toList ++ b.toList) ∧
+    (word r w nxt).S.stash = r.S.stash ∧ (word r w nxt).active = r.active := by
+  have hd : handleDouble r w = (false, { r with lastCmd := w }) := by
+    unfold handleDouble
+    simp only [h.notCommand, h.notPac, h.notSpecial, h.notExtended, h.notTab, h.notCue, h.notBs, Bool.and_false,
+      Bool.or_false, Option.isSome_none, Bool.false_and, Bool.false_eq_true, if_false, ite_self]
+  unfold word
+  rw [hd]
+  simp only [Bool.false_eq_true, if_false, h.notCommand, h.notPac, Bool.or_self, h.notSpecial, h.notExtended, h.first, h.second]
+  have key : ∀ (r' : Reader), r'.buf = r.buf → r'.S = r.S → r'.active = r.active → r'.tr = r.tr →
+      itext ({ (r'.setBuf (addChars r'.buf r'.tr (a.toList ++ b.toList)).1) with tr := (addChars r'.buf r'.tr (a.toList ++ b.toList)).2, frames := r'.frames + 1 } : Reader).buf.coll
+        = itext r.buf.coll ++ (a.toList ++ b.toList) := by
+    intro r' hb _ ha _
+    have : ({ (r'.setBuf (addChars r'.buf r'.tr (a.toList ++ b.toList)).1) with tr := (addChars r'.buf r'.tr (a.toList ++ b.toList)).2, frames := r'.frames + 1 } : Reader).buf
+        = (addChars r'.buf r'.tr (a.toList ++ b.toList)).1 := by
+      cases hh : r'.active <;> simp [Reader.setBuf, Reader.buf, hh]
+    rw [this, itext_addChars, hb]
+  refine ⟨?_, ?_, ?_⟩
+  · exact key { r with lastCmd := w } (by cases hh : r.active <;> simp [Reader.buf, hh]) rfl rfl rfl
+  · cases hh : r.active <;> simp [Reader.setBuf, hh]
+  · cases hh : r.active <;> simp [Reader.setBuf, hh]
+
 end PcVerif.Scc
